@@ -31,9 +31,11 @@ import (
 	"regexp"
 	"runtime"
 	"runtime/debug"
+	"runtime/metrics"
 	"sort"
 	"strings"
 	"sync"
+	"sync/atomic"
 	"syscall"
 	"time"
 
@@ -181,7 +183,27 @@ func c07Worker(asLimit uint64) {
 	var m0, m1 runtime.MemStats
 	n := 0
 	runtime.MemProfileRate = 1 << 20 // every allocation of a megabyte or more is recorded with its stack
-	prof := map[[32]uintptr]int64{}
+	// peak heap: sampled every 200 microseconds from the runtime's own accounting (live objects plus
+	// garbage not yet collected; the collector keeps the latter below the former plus a few MiB)
+	var peak atomic.Uint64
+	sample := func() {
+		s := []metrics.Sample{{Name: "/memory/classes/heap/objects:bytes"}}
+		metrics.Read(s)
+		v := s[0].Value.Uint64()
+		for {
+			old := peak.Load()
+			if v <= old || peak.CompareAndSwap(old, v) {
+				return
+			}
+		}
+	}
+	go func() {
+		for {
+			sample()
+			time.Sleep(200 * time.Microsecond)
+		}
+	}()
+	prof := map[[32]uintptr][2]int64{}
 	for {
 		line, err := in.ReadString('\n')
 		if err != nil {
@@ -199,25 +221,32 @@ func c07Worker(asLimit uint64) {
 		fmt.Fprintf(out, "S\n")
 		out.Flush()
 		runtime.ReadMemStats(&m0)
+		peak.Store(0)
+		sample()
+		base := peak.Load()
 		t0 := time.Now()
 		r := c07Walk(path)
 		us := time.Since(t0).Microseconds()
+		sample()
 		runtime.ReadMemStats(&m1)
-		if limit > 0 && m1.TotalAlloc-m0.TotalAlloc > limit && r.res != "panic" {
-			r.site = allocSite(prof)
+		grown := uint64(0)
+		if p := peak.Load(); p > base {
+			grown = p - base
 		}
-		b, _ := json.Marshal(map[string]interface{}{"res": r.res, "us": us, "alloc": m1.TotalAlloc - m0.TotalAlloc, "site": r.site, "msg": r.msg})
+		_ = prof
+		b, _ := json.Marshal(map[string]interface{}{"res": r.res, "us": us, "alloc": grown, "total": m1.TotalAlloc - m0.TotalAlloc, "site": r.site, "msg": r.msg})
 		out.Write(b)
 		out.WriteByte('\n')
 		out.Flush()
-		if n++; n%256 == 0 {
+		if n++; n%256 == 0 || grown > 16<<20 {
 			runtime.GC()
 		}
 	}
 }
 
-// allocSite names the library frame that allocated the most since the last call.
-func allocSite(prev map[[32]uintptr]int64) string {
+// allocSite names the library frame that made the largest allocations since the last call
+// (largest average object size among the stacks that allocated at all in between).
+func allocSite(prev map[[32]uintptr][2]int64) string {
 	runtime.GC()
 	runtime.GC() // the profile is published two cycles late
 	recs := make([]runtime.MemProfileRecord, 4096)
@@ -226,22 +255,24 @@ func allocSite(prev map[[32]uintptr]int64) string {
 		recs = make([]runtime.MemProfileRecord, n+1024)
 		n, _ = runtime.MemProfile(recs, true)
 	}
-	best, bestDelta := "?", int64(0)
+	best, bestAvg := "?", int64(0)
 	for _, r := range recs[:n] {
-		d := r.AllocBytes - prev[r.Stack0]
-		prev[r.Stack0] = r.AllocBytes
-		if d > bestDelta {
-			frames := runtime.CallersFrames(r.Stack())
-			for {
-				f, more := frames.Next()
-				if strings.Contains(f.Function, "github.com/scigolib/hdf5") && !strings.Contains(f.Function, "verifapi") {
-					fn := strings.TrimPrefix(f.Function, "github.com/scigolib/hdf5")
-					best, bestDelta = strings.TrimPrefix(strings.TrimPrefix(fn, "/internal/"), "."), d
-					break
-				}
-				if !more {
-					break
-				}
+		p := prev[r.Stack0]
+		db, do := r.AllocBytes-p[0], r.AllocObjects-p[1]
+		prev[r.Stack0] = [2]int64{r.AllocBytes, r.AllocObjects}
+		if do <= 0 || db/do <= bestAvg {
+			continue
+		}
+		frames := runtime.CallersFrames(r.Stack())
+		for {
+			f, more := frames.Next()
+			if strings.Contains(f.Function, "github.com/scigolib/hdf5") && !strings.Contains(f.Function, "verifapi") {
+				fn := strings.TrimPrefix(f.Function, "github.com/scigolib/hdf5")
+				best, bestAvg = strings.TrimPrefix(strings.TrimPrefix(fn, "/internal/"), "."), db/do
+				break
+			}
+			if !more {
+				break
 			}
 		}
 	}
@@ -301,7 +332,7 @@ func c07Start(asLimit uint64) (*c07Proc, error) {
 
 func (p *c07Proc) kill() {
 	_ = p.cmd.Process.Kill()
-	_, _ = p.cmd.Process.Wait()
+	_ = p.cmd.Wait()
 }
 
 var reFatal = regexp.MustCompile(`(?m)^(fatal error: .*|runtime: (?:out of memory|goroutine stack exceeds).*|panic: .*)$`)
@@ -342,8 +373,8 @@ func (p *c07Proc) ask(path string, limit int64, timeout time.Duration) (c07Reply
 		if a.ok {
 			return a.r, true
 		}
-		// the worker died: the runtime's last words say why
-		_, _ = p.cmd.Process.Wait()
+		// the worker died: the runtime's last words say why (Wait also drains stderr)
+		_ = p.cmd.Wait()
 		txt := p.errBuf.String()
 		why := "died"
 		if m := reFatal.FindString(txt); m != "" {
@@ -608,6 +639,13 @@ func runC07(args []string) {
 	case "worker":
 		c07Worker(*as)
 		return
+	case "profile":
+		// one input in a fresh process: which library frame made the largest allocation
+		runtime.MemProfileRate = 1 << 16
+		debug.SetMaxStack(48 << 20)
+		_ = c07Walk(*in)
+		fmt.Println(allocSite(map[[32]uintptr][2]int64{}))
+		return
 	case "mkfiles":
 		files, err := c07MakeFiles(*dir)
 		lib.Must(err, "mkfiles")
@@ -681,6 +719,14 @@ func runC07(args []string) {
 					outcome := r.Res
 					if (outcome == "ok" || outcome == "err") && int64(r.Alloc) > limit {
 						outcome = "excess-alloc"
+						// attribute it in a fresh process (the heap profile of a long-lived worker is stale)
+						pc := exec.Command(os.Args[0], "c07", "-mode", "profile", "-in", path, "-out", "-")
+						pc.Env = append(os.Environ(), "GOMAXPROCS=2")
+						if ob, err := pc.Output(); err == nil {
+							r.Site = strings.TrimSpace(string(ob))
+						} else {
+							r.Site = "?"
+						}
 					}
 					site := r.Site
 					if outcome == "ok" || outcome == "err" {
